@@ -20,6 +20,7 @@ clauses. Three statements of the property turned out FALSE of the code and have 
 (`new_wrap_counter`).
 -/
 import Gsu.Proofs.DnumQ4
+import Gsu.Proofs.DnumStr
 namespace Gsu.Props.C27
 open Gsu.Dnum Gsu.Num
 
@@ -237,8 +238,21 @@ theorem ilog10_digits (x : Nat) (h0 : 0 < x) (h1 : x < 10 ^ 19) :
     10 ^ ilog10 x ≤ x ∧ x < 10 ^ (ilog10 x + 1) :=
   Dnum.ilog10_spec x h0 h1
 
+/-- string_roundtrip — FULL: `FromStr(String(d)) = d` for every finite normalised decimal (16
+digit coefficient, exponent −128 … 127, either sign), through whichever of the four output
+formats `String` chooses (`.000ddd`, `dd.ddd`, `ddd000`, `d.ddde±x`), and for zero and the two
+infinities. Model: the REPAIRED `String` (finding 14, exponent text `int(exp) − 1`). -/
+theorem string_roundtrip (d : Dnum) (h : FinN d ∨ d = zero ∨ d = posInf ∨ d = negInf) :
+    fromStr (toStr d) = some d := by
+  simp only [fromStr, toStr, String.toList_ofList]
+  rcases h with h | rfl | rfl | rfl
+  · exact Dnum.roundtrip_finite d h.1 h.2.1 h.2.2
+  · exact Dnum.roundtrip_special.1
+  · exact Dnum.roundtrip_special.2.1
+  · exact Dnum.roundtrip_special.2.2
+
 /-- string_roundtrip on concrete values of the four formats, incl. the exponent −128 case of
-finding 14 (the full statement for all decimals is not proved; direct oracle). -/
+finding 14 (also pins the text that is produced). -/
 theorem string_roundtrip_samples :
     fromChars (toChars ⟨1234500000000000, 1, -3⟩) = some ⟨1234500000000000, 1, -3⟩ ∧
     fromChars (toChars ⟨1234500000000000, -1, 3⟩) = some ⟨1234500000000000, -1, 3⟩ ∧
